@@ -66,7 +66,8 @@ func smallOptions(g *dag.Graph) []*dag.Node {
 		for _, ls := range layerSets {
 			m := ocispec.Manifest{MediaType: ocispec.MediaTypeImageManifest, Config: g.Nodes[cfg].Desc, Layers: []ocispec.Descriptor{}}
 			m.SchemaVersion = 2
-			nd := &dag.Node{ID: id, Kind: dag.KImage, Subject: -1, TwinOf: -1, Succ: []int{cfg}}
+			m.Annotations = map[string]string{"verif.small": fmt.Sprint(id)} // distinct bytes per position
+			nd := &dag.Node{ID: id, Kind: dag.KImage, Subject: -1, TwinOf: -1, Succ: []int{cfg}, Annotations: m.Annotations}
 			for _, l := range ls {
 				m.Layers = append(m.Layers, g.Nodes[l].Desc)
 				nd.Succ = append(nd.Succ, l)
@@ -82,6 +83,7 @@ func smallOptions(g *dag.Graph) []*dag.Node {
 		}
 		ix := ocispec.Index{MediaType: ocispec.MediaTypeImageIndex, Manifests: []ocispec.Descriptor{}}
 		ix.SchemaVersion = 2
+		ix.Annotations = map[string]string{"verif.small": fmt.Sprint(id)}
 		nd := &dag.Node{ID: id, Kind: dag.KIndex, Subject: -1, TwinOf: -1}
 		for _, m := range ms {
 			ix.Manifests = append(ix.Manifests, g.Nodes[m].Desc)
